@@ -166,6 +166,12 @@ def run(ctx):
         o = dec(204, eb, lambda x: H.SOMEIPSDEntry.parse(x, nopt), conv.s_entry, "SD entry", extra=nopt)
         ctx.case(("e", eb, nopt), kind=f"entry-{o}")
     outs = compare(ctx, cases, impl, "decoder outcome differs from the model", lambda i: repr(descr[i]))
+    for (op, arg), mine, theirs, what in zip(cases, outs, impl, descr):
+        # the model's decoders are proved to accept exactly the encodings of the format: an input they reject is malformed
+        if theirs[0] == 0 and mine.startswith("(1 "):
+            b = arg if isinstance(arg, (bytes, bytearray)) else arg[0]
+            ctx.violation(f"{what}: malformed input was ACCEPTED by the decoder (the format, i.e. the model's decoder, rejects it)",
+                          dict(input=bytes(b).hex()[:4000], implementation=sexp.dumps(theirs)[:1500], model=mine[:300]))
     # ---- (b) live endpoints ----
     loop = asyncio.new_event_loop()
     asyncio.set_event_loop(loop)
@@ -184,6 +190,7 @@ def run(ctx):
         svc.transport = Transport()
         svc.register_method(1, lambda m, a: b"ok")
         corpus = [bytes.fromhex(c["datagram_hex"]) for c in load_corpus("C03")]
+        live = []
         for k in range(-len(corpus), 400 if quick else 12000):
             c = r.random()
             if k < 0:
@@ -206,7 +213,26 @@ def run(ctx):
                 data = bytes(H.SOMEIPHeader(0xFFFF, 0x8100, 0, r.randint(1, 9), 1, H.SOMEIPMessageType.NOTIFICATION, payload=payload).build())
                 if r.random() < 0.2:
                     data, _ = gen.mutate(r, data, fields=[(4, 4)])
-            verdict = is_sd_notification(data)
+            live.append((data, kind))
+        # the oracle for "is this a decodable SD notification" is the MODEL's decoder (proved sound and complete for the
+        # format), not pysomeip's own parser: a datagram the implementation wrongly accepts is then still judged as foreign
+        m1 = ctx.model.batch([(102, d) for d, _ in live])
+        verdicts = []
+        pend = []
+        for (d, _), o in zip(live, m1):
+            v = sexp.loads(o)
+            if v[0] != 0:
+                verdicts.append(False); continue
+            msg, rest = v[1]
+            if rest not in ([], b""):
+                verdicts.append(None); continue
+            if (msg[0], msg[1], msg[4], msg[5], msg[7]) != (0xFFFF, 0x8100, 1, 2, 0):
+                verdicts.append(False); continue
+            verdicts.append("sd"); pend.append((len(verdicts) - 1, msg[8] if msg[8] != [] else b""))
+        m2 = ctx.model.batch([(208, p) for _, p in pend])
+        for (i, _), o in zip(pend, m2):
+            verdicts[i] = True if sexp.loads(o)[0] == 0 else False
+        for (data, kind), verdict in zip(live, verdicts):
             before = snapshot(prot, inst)
             ncalls, nsent, nerr = len(lst.calls), len(prot.transport.sent), len(errors)
             mc = r.random() < 0.5
